@@ -2864,6 +2864,20 @@ class State:
                 ):
                     player_indices.append(i)
 
+            if not player_indices and any(self.statuses):
+                max_pending_contribution = max(
+                    pending_contributions[i]
+                    for i in self.player_indices if self.statuses[i]
+                )
+
+                for i in self.player_indices:
+                    if (
+                            pending_contributions[i]
+                            == max_pending_contribution
+                            and self.statuses[i]
+                    ):
+                        player_indices.append(i)
+
             while pots and pots[-1].player_indices == tuple(player_indices):
                 amount += pots.pop().amount
 
